@@ -23,7 +23,7 @@ META = {
     'engine': 'S',
     'technique': 'stateless schedule exploration (preemption-bounded, line-granular) x exhaustive clock-reading scripts on the real generator',
     'text': 'All executions of a shared default MonotonicTimestampGenerator called by 2 threads x 2 calls (quick: preemption bound 2 for '
-            'the whole-microsecond domain, 1 for the others; thorough: bound 2-3, also 3 threads) and by a single thread x 3-4 calls '
+            'the whole-microsecond domain, 1 for the others; thorough: bound 2-3, also 3 threads with bound 1-3) and by a single thread x 3-4 calls '
             '(thorough: 4-5), with every clock-reading sequence chosen per call from: whole microseconds {10,11,12} us (standing still / '
             'stepping back); {10,1500000,3000000} us (jump far ahead, then fall back by more than the 1 s warning threshold with the '
             'warning interval elapsed: the "Clock skew detected" branch is taken, and also its rate-limited and below-threshold '
@@ -78,6 +78,11 @@ class Clock(object):
         return t
 
 
+# wall-clock guard against a real (non-virtual) blocking primitive only; generous because on the shared, heavily
+# loaded machine whole processes have been observed to stall for more than 100 s
+WATCHDOG = 900.0
+
+
 class SkewCounter(logging.Handler):
     """Counts the generator's 'Clock skew detected' records (and keeps them off stderr)."""
     def __init__(self):
@@ -114,7 +119,7 @@ def harness(params, prefix, part):
             return body
         for i, n in enumerate(params['calls']):
             s.spawn(worker(n), 't%d' % i)
-        s.run()
+        s.run(watchdog=WATCHDOG)
     finally:
         ts.time, ts.Lock = orig_time, orig_lock
         lg.removeHandler(skew)
@@ -175,7 +180,7 @@ def run(ctx):
     if T:
         cfgs += [('3x1', {'calls': [1, 1, 1], 'domain': [10, 11, 12]}, 3),
                  ('3-211', {'calls': [2, 1, 1], 'domain': [10, 12]}, 2),
-                 ('3-211-drift', {'calls': [2, 1, 1], 'domain': [1500000, 3000000]}, 2)]
+                 ('3-211-drift', {'calls': [2, 1, 1], 'domain': [1500000, 3000000]}, 1)]
     for name, params, bound in cfgs:
         before = ctx.counters.get('skew_warning_executions', 0)
         sched.explore(ctx, 'c31-' + name, harness, params, bound)
